@@ -371,28 +371,9 @@ Definition fetch2 (ids : list nat) (mid : list midw) : list ev :=
 
 (* ---- script based SimulatorBackend._run_job_and_collect_results ---------------------------- *)
 (* The job of a (re)started trial is the training script, run to completion; std.out is appended
-   to, [all] = every report std.out holds afterwards (all runs of the trial). The results of the
-   new run are all[num_already_before:] with num_already_before = _last_metric_seen_index: what
-   arrived so far, delivered or dropped, is skipped. *)
-Inductive sev := E (e : ev) | ResumeScript (i : nat) (all : list rep).
-Definition sstep (st : state) (s : sev) : state * option err :=
-  match s with
-  | E e => step Sim st e
-  | ResumeScript i all =>
-      match nth_error (trials st) i with
-      | Some t => step Sim st (Resume i (skipn (seen t) all))
-      | None => (st, Some ResumeBadId)
-      end
-  end.
-Fixpoint srun (st : state) (evs : list sev) : state * option err :=
-  match evs with
-  | [] => (st, None)
-  | e :: r =>
-      match sstep st e with
-      | (st1, None) => srun st1 r
-      | (st1, Some x) => (st1, Some x)
-      end
-  end.
+   to; the results of the new run are exactly what THIS run wrote (std.out is measured before the
+   script starts, patch F-C02-3): event [Resume i reps] with reps = the new run's reports, as for
+   the blackbox backends. *)
 
 (* ---- tabular simulator: _BlackboxSimulatorBackend._run_job_and_collect_results ---------- *)
 (* all_results of the table (resource level, payload); on resume with checkpointing only the
